@@ -273,6 +273,27 @@ func (iv *Inv) semKeyLift(s invSite, lift int) string {
 				ops = []ssa.Value{a[1]}
 			}
 		}
+	case "panic":
+		// an explicit panic is vetted for what it raises (the error of a named call), not for where it stands
+		if pn, ok := s.instr.(*ssa.Panic); ok {
+			v := pn.X
+			if mi, ok := v.(*ssa.MakeInterface); ok {
+				v = mi.X
+			}
+			if ci, ok := v.(*ssa.ChangeInterface); ok {
+				v = ci.X
+			}
+			var call *ssa.Call
+			switch e := v.(type) {
+			case *ssa.Extract:
+				call, _ = e.Tuple.(*ssa.Call)
+			case *ssa.Call:
+				call = e
+			}
+			if call != nil && isErrorType(v.Type()) && lift == 0 {
+				return "panic | error of " + shortCallee(callName(call.Common())) + "()"
+			}
+		}
 	}
 	if len(ops) == 0 {
 		return ""
